@@ -131,16 +131,27 @@ func scenarioTimeouts(enc *json.Encoder, idx int) map[string]any {
 	hold := make(chan struct{})
 	var wg sync.WaitGroup
 	start := time.Now()
-	for _, k := range []string{"stall", "h1", "h2", "noalpn"} {
-		k := k
+	type holder struct {
+		kind string
+		o    clientOpts
+	}
+	holders := []holder{{"stall", clientOpts{requests: 1}}, {"h1", clientOpts{requests: 1}}, {"h2", clientOpts{requests: 1}}, {"noalpn", clientOpts{requests: 1}},
+		// served requests, then one the client cancels (RST_STREAM), then silence: idle after serving a request all the same.
+		// (connections that never had a request served are not promised an idle cut by the statement: net/http applies
+		// IdleTimeout only between requests, the first one is under ReadTimeout)
+		{"h2", clientOpts{requests: 2, h2cancel: true}},
+		{"h2", clientOpts{requests: 1, h2cancel: true}}}
+	for _, h := range holders {
+		h := h
+		h.o.hold = hold
 		wg.Add(1)
 		go func() {
 			defer wg.Done()
-			s.client(k, clientOpts{requests: 1, hold: hold})
+			s.client(h.kind, h.o)
 		}()
 	}
 	// the proxy must cut the stalled handshake and the idle connections on its own: clients keep their side open
-	for i := 0; i < 400 && s.countOp("h2_begin")+s.countOp("h1_sent") < 3; i++ {
+	for i := 0; i < 400 && s.countOp("h2_begin")+s.countOp("h1_sent") < len(holders)-1; i++ {
 		time.Sleep(5 * time.Millisecond) // until the three HTTP connections are being served
 	}
 	time.Sleep(100 * time.Millisecond)   // requests done; the connections are idle from here on
